@@ -53,11 +53,46 @@ func init() {
 	})
 }
 
-const (
+// the last words of a session whose read failed.  The WORDING is the implementation's business (a maintainer may reword it); what the oracles ask is
+// that the line for an expired deadline / for another network error is sent exactly once and nothing else.  The texts are therefore learnt from the
+// tree under test before the leg starts (popCalibrate); the defaults are the pinned tree's.
+var (
 	popIdleText = "-ERR Idle timeout, bye bye"
 	popConnText = "-ERR Connection error, sorry"
-	popRetrErr  = "-ERR Failed to RETR that message, internal error"
 )
+
+const popRetrErr = "-ERR Failed to RETR that message, internal error"
+
+// popCalibrate: an idle session that meets a read time-out, and one that meets a connection reset, right after the greeting
+func popCalibrate(c *core.Ctx) {
+	st, err := mem.New(config.Storage{Type: "memory"}, extension.NewHost())
+	if err != nil {
+		return
+	}
+	for _, k := range []scKind{scTimeout, scNetErr} {
+		srv, err := pop3.NewServer(config.POP3{Domain: "verif.local", Timeout: 30 * time.Second}, st)
+		if err != nil {
+			return
+		}
+		conn := newScriptConn([]scEv{{kind: k}}, -1, 30*time.Second)
+		_, wedged, _ := runWatched(func() {
+			vs := srv.VerifStartSession(1, conn)
+			<-vs.Done
+		}, 10*time.Second)
+		if wedged {
+			return
+		}
+		lines := strings.Split(strings.TrimRight(string(conn.output()), "\r\n"), "\r\n")
+		if len(lines) == 2 && strings.HasPrefix(lines[1], "-ERR") { // greeting, last words
+			if k == scTimeout {
+				popIdleText = lines[1]
+			} else {
+				popConnText = lines[1]
+			}
+		}
+	}
+	c.Note("c13 end leg: last words learnt from the tree under test: time-out %q, other read error %q", popIdleText, popConnText)
+}
 
 // ---------- a store whose messages' Source() misbehaves for chosen ids
 
@@ -975,6 +1010,7 @@ func runPopEndLive(c *core.Ctx, m *core.Model, r *rand.Rand, idx int) {
 }
 
 func c13EndLeg(c *core.Ctx) {
+	popCalibrate(c)
 	n := c.Scale(5000, 100000)
 	workers := 12
 	core.Parallel(workers, workers, func(sh int) {
